@@ -269,7 +269,20 @@ LoopInIndex == {<<Each("v", Var("ar"), <<P(Idx(Var("ar"), LoopF("index"))), H(",
                 <<Each("w", ArrL(<<IntL(7), IntL(8)>>), <<Each("v", Var("ar"), <<P(Idx(Var("ar"), LoopF("index")))>>, NoElse, 1), P(Idx(Var("ar"), LoopF("index"))), H(";")>>, NoElse, 1)>>,
                 <<Each("v", Var("ar"), <<P(Dot(ObjL(<<[key |-> "k", ex |-> LoopF("iter")]>>), "k"))>>, NoElse, 1)>>,
                 <<Each("v", Var("ar"), <<P(Tern(BoolL(TRUE), Idx(ArrL(<<LoopF("first"), LoopF("last")>>), IntL(1)), IntL(0)))>>, NoElse, 1)>>}
-EmptyBodies == ParenText \cup LoopConds \cup NestedChains \cup LoopInIndex \cup
+\* the bodies of the branches that are NOT chosen are not evaluated either: what they would raise does not surface, what they
+\* would assign is not assigned
+Deads == {<<P(Var("zz"))>>, <<P(Bin("/", IntL(1), IntL(0)))>>, <<Assign("t", IntL(1), 1)>>, <<P(Dot(Var("nn"), "name"))>>, <<Each("q", IntL(5), <<H("x")>>, NoElse, 1)>>}
+Live == <<H("T"), Assign("t", StrL("s"), 1), P(Var("t"))>>
+DeadBodies == {<<H("a"), If(<<Br(c, Live)>>, dead, 1), H("z")>> : c \in {BoolL(TRUE), IntL(1), Var("ts")}, dead \in Deads}
+         \cup {<<H("a"), If(<<Br(BoolL(FALSE), d1), Br(IntL(1), Live), Br(BoolL(TRUE), d2)>>, d3, 1), H("z")>> : d1 \in Deads, d2 \in Deads, d3 \in Deads}
+         \cup {<<H("a"), If(<<Br(Var("fs"), d1), Br(Var("nn"), d2)>>, Live, 1), H("z")>> : d1 \in Deads, d2 \in Deads}
+         \cup {<<Each("v", Var("ar"), <<If(<<Br(Bin("==", V, IntL(2)), <<H("two")>>)>>, <<P(V)>>, 1), If(<<Br(BoolL(TRUE), <<H(".")>>)>>, d, 1)>>, NoElse, 1)>> : d \in Deads}
+\* an inner loop's array expression and its @else body are evaluated in the OUTER loop's pass: 'loop' there is the outer loop's
+LoopInHeader == {<<Each("v", Var("ar"), <<H("("), Each("w", Idx(ArrL(<<ArrL(<<IntL(7), IntL(8)>>), ArrL(<<IntL(9)>>), ArrL(<<>>)>>), LoopF("index")), <<P(Var("w")), P(LoopF("index"))>>, <<H("none"), P(LoopF("iter"))>>, 1), H(")")>>, NoElse, 1)>>,
+                 <<Each("v", Var("ar"), <<Each("w", ArrL(<<LoopF("iter"), LoopF("index")>>), <<P(Var("w")), H(",")>>, NoElse, 1), H(";")>>, NoElse, 1)>>,
+                 <<Each("v", Var("ar"), <<Each("w", ArrL(<<>>), <<H("never")>>, <<P(LoopF("iter")), P(Tern(LoopF("last"), StrL("L"), StrL("-")))>>, 1)>>, NoElse, 1)>>,
+                 <<Each("v", Var("ar"), <<For(Assign("i", LoopF("index"), 1), Bin("<", Var("i"), IntL(2)), Post("++", Var("i")), <<P(Var("i"))>>, <<H("e"), P(LoopF("iter"))>>, 1), H(";")>>, NoElse, 1)>>}
+EmptyBodies == ParenText \cup LoopConds \cup NestedChains \cup LoopInIndex \cup DeadBodies \cup
                {<<H("a"), If(<<Br(c1, b1)>>, e, 1), H("z")>> : c1 \in {BoolL(TRUE), BoolL(FALSE)}, b1 \in {<<>>, <<H("[1]")>>}, e \in {NoElse, <<>>, <<H("[e]")>>}}
           \cup {<<H("a"), If(<<Br(c1, b1), Br(c2, b2)>>, e, 1), H("z")>> : c1 \in {BoolL(TRUE), BoolL(FALSE)}, c2 \in {BoolL(TRUE), BoolL(FALSE)},
                                                                        b1 \in {<<>>, <<H("[1]")>>}, b2 \in {<<>>, <<H("[2]")>>}, e \in {NoElse, <<>>, <<H("[e]")>>}}
@@ -290,7 +303,7 @@ Cases ==
     [] Family = "c02truth" -> {[p |-> p, d |-> CondData, tags |-> <<"c02truth">>] : p \in UNION {TruthProbe(c) : c \in CondsAll}}
     [] Family = "c03each" -> {[p |-> p, d |-> CondData, tags |-> <<"c03each">>] : p \in EachLoops \cup NonArrays}
     [] Family = "c03for" -> {[p |-> p, d |-> CondData, tags |-> <<"c03for">>] : p \in ForLoops}
-    [] Family = "c03nested" -> {[p |-> p, d |-> CondData, tags |-> <<"c03nested">>] : p \in Nested \cup Nested3 \cup LoopInFor}
+    [] Family = "c03nested" -> {[p |-> p, d |-> CondData, tags |-> <<"c03nested">>] : p \in Nested \cup Nested3 \cup LoopInFor \cup LoopInHeader}
     [] Family = "c04scopes" -> {[p |-> c.p, d |-> c.d, tags |-> <<"c04scopes">>] : c \in ScopeProgs}
     [] Family = "c04scopesall" -> {[p |-> c.p, d |-> c.d, tags |-> <<"c04scopes">>] : c \in ScopeProgsAll}
     [] Family = "c04loop" -> {[p |-> c.p, d |-> c.d, tags |-> <<"c04loop">>] : c \in LoopProgs}
